@@ -16,6 +16,7 @@ TEXT = ("Sibling cross-check over every `impl Adapter` of every cargo feature co
         "whole value under length==0 [&& offset==0] and otherwise the slice offset..offset+length. S5: consumers of "
         "listings re-append the same extension constant. Decides the shape of the contract in every backend; does not "
         "decide reopen equality, compression round trips or cross-backend state equality (runtime values).")
+TECHNIQUE = 'static analysis over rustc MIR: sibling agreement of all Adapter implementations (absence-guarded write effects, suffix filter+strip shape, ranged-read shape, wrapper delegation and codec symmetry)'
 TRUSTED = ["rustc nightly MIR", "std::fs, BTreeMap, rusqlite, reqwest, flate2, brotli behave as documented",
            "SQLite PRIMARY KEY + INSERT OR IGNORE keeps the first row"]
 
